@@ -7,7 +7,10 @@ model:        specs/Config.tla (+ConfigOps.tla): every stack of sources inside t
 spec -> code: every complete stack exported by Config.tla replayed on the real forml.setup Config (update / kwargs /
               TOML files / read); every behaviour exported by Bank.tla replayed on real provider classes created under
               a fresh abstract root per scenario (direct class creation incl. collisions; modules materialised on a
-              temp sys.path for import orders and lazy discovery) and the whole lookup table compared.
+              temp sys.path for import orders and lazy discovery) and the whole lookup table compared - including
+              the references nobody provides in every shape Bank!URefs lists (module path absent at the leaf / at a
+              parent package / at the top, or installed without such a provider; plain and dotted aliases), concretised
+              against a small installed module tree, with and without an uninstalled search path on the interface.
 code -> spec: randomised deeper stacks and section resolutions validated by specs/TraceConfig.tla, randomised larger
               hierarchies with interleaved lookups validated by specs/TraceBank.tla.
 """
@@ -467,7 +470,7 @@ def section_selftest():
 def bank_cfg(path, n, a, m, modules, gets, export, impl=None, invariants=True, steptables=True):
     inv = ['SingleClass', 'AbstractNeverReturned', 'UnknownMissing', 'CollisionsRejected', 'OrderIndependent', 'LazySound']
     if impl is not None:
-        inv += ['ImplOutcome', 'ImplRefines', 'ImplWithin', 'ImplOrderFree']
+        inv += ['ImplOutcome', 'ImplRefines', 'ImplWithin', 'ImplOrderFree', 'ImplUnknown']
     with open(path, 'w') as fh:
         fh.write(f'SPECIFICATION {"ISpec" if impl is not None else "Spec"}\nCONSTANTS N = {n}\n A = {a}\n M = {m}\n'
                  f' UseModules = {"TRUE" if modules else "FALSE"}\n MaxGets = {gets}\n DoExport = {"TRUE" if export else "FALSE"}\n'
@@ -480,6 +483,10 @@ def bank_cfg(path, n, a, m, modules, gets, export, impl=None, invariants=True, s
             fh.write('INVARIANT Export\n')
         fh.write('CHECK_DEADLOCK FALSE\n')
     return path
+
+
+KINDS = {1: 'alias', 2: 'qualified name of class', 3: 'unknown qualified name of shape/class 100s+10e+k',
+         4: 'unknown alias of shape 10s+e'}
 
 
 def chain(cls, c):
@@ -512,28 +519,115 @@ def known_partial(cls, order_acc, rejected, via, t, n):
     return 0
 
 
-def full_table(sparse, vias, a, n):
+GHOSTS = ((0, 0), (1, 0), (2, 0), (2, 1), (3, 0), (3, 1), (3, 2))  # Bank!GhostsAll (TraceBank!TInit refuses anything else)
+# unknown-shaped references looked up per interface and table (None = all of them) in direct / materialised hierarchies
+PROBES = {'direct': None, 'modules': None, 'seed': 0}
+
+
+def full_table(sparse, vias, a, n, urefs=(), tag='', kind='direct'):
     """Every (interface, reference) pair of the domain with its expectation; pairs TLC did not list are
-    'missing, and nothing may be returned' (Bank!Table is exported sparsely)."""
+    'missing, and nothing may be returned' (Bank!Table is exported sparsely).  `urefs` = Bank!URefs as exported by
+    TLC (references nobody provides, by shape): all of them, or a seeded sample per interface in the quick tier."""
     listed = {(r['via'], r['t'], r['n']): r for r in sparse}
     out = []
+    rnd = random.Random(f'{PROBES["seed"]}/{tag}')
     for via in sorted(vias):
         for t, top in ((1, a + 1), (2, n + 1)):
             for num in range(1, top + 1):
                 out.append(listed.get((via, t, num)) or {'via': via, 't': t, 'n': num, 'must': 0, 'may': 0})
+        probes = urefs if PROBES[kind] is None or len(urefs) <= PROBES[kind] else rnd.sample(urefs, PROBES[kind])
+        for t, num in probes:
+            if (via, t, num) in listed:
+                raise tlc.MachineryError(f'Bank!Table lists the unknown reference {(t, num)}')
+            out.append({'via': via, 't': t, 'n': num, 'must': 0, 'may': 0})
     return out
+
+
+def take_urefs(vectors, rnd):
+    """Split what Bank.tla printed: the behaviours, and the constant sets printed once - Bank!URefs (attached to every
+    behaviour) and Bank!GhostsAll, the search path configurations under each of which every behaviour is required:
+    one is drawn per behaviour (none / an uninstalled one, half and half)."""
+    consts = [v for v in vectors if 'urefs' in v]
+    if len(consts) != 1:
+        raise tlc.MachineryError(f'Bank.tla did not export its unknown-reference domain once: {consts}')
+    urefs = sorted(tuple(r) for r in consts[0]['urefs'])
+    ghosts = sorted(tuple(g) for g in consts[0]['ghosts'])
+    if {t for t, _ in urefs} != {3, 4} or set(ghosts) != set(GHOSTS):
+        raise tlc.MachineryError(f'Bank.tla exported unexpected domains: {consts}')
+    vectors = [v for v in vectors if 'urefs' not in v]
+    for vec in vectors:
+        vec['urefs'] = urefs
+        vec['ghost'] = rnd.choice(ghosts[1:]) if rnd.random() < 0.5 else ghosts[0]
+    return vectors, urefs
+
+
+class Namespace:
+    """The installed module tree the shapes of Bank!Shapes are concretised against: package <pkg> (the search package
+    of the root interface) holding the package <pkg>.sub holding the module <pkg>.sub.mod - none of them defines a
+    provider.  Names starting with <prefix>_ghost and the segments `nope` / `x` exist nowhere."""
+
+    CHAIN = ('sub', 'mod')
+
+    def __init__(self, pkg, prefix):
+        self.pkg, self.prefix = pkg, prefix
+
+    @classmethod
+    def install(cls, base, pkg):
+        """create the tree below `base` (a sys.path entry); <pkg>/__init__.py may exist already; <pkg>/sub is a link to
+        one directory shared by all the packages below `base` (a package is created per replayed behaviour)"""
+        shared = os.path.join(base, '_c20ns_sub')
+        if not os.path.isdir(shared):
+            os.makedirs(shared)
+            for name in ('__init__.py', 'mod.py'):
+                with open(os.path.join(shared, name), 'w') as fh:
+                    fh.write('')
+        os.makedirs(os.path.join(base, pkg), exist_ok=True)
+        init = os.path.join(base, pkg, '__init__.py')
+        if not os.path.exists(init):
+            with open(init, 'w') as fh:
+                fh.write('')
+        if not os.path.lexists(os.path.join(base, pkg, 'sub')):
+            os.symlink(shared, os.path.join(base, pkg, 'sub'))
+        importlib.invalidate_caches()
+
+    @staticmethod
+    def _path(s, e, installed, fresh):
+        """s segments: the first e are the installed ones, segment e + 1 (if any) is `fresh`, the rest `x`"""
+        if e > len(installed) or e > s:
+            raise tlc.MachineryError(f'shape <<{s}, {e}>> cannot be concretised over {installed}')
+        return '.'.join([*installed[:e], *([fresh] + ['x'] * (s - e - 1) if e < s else [])])
+
+    def qualified(self, code, clsname):
+        s, e, k = code // 100, code // 10 % 10, code % 10
+        module = self._path(s, e, (self.pkg, *self.CHAIN), f'{self.prefix}_ghost' if e == 0 else 'nope')
+        return f'{module}:{clsname(k) if k else "Nope"}'
+
+    def alias(self, code):
+        s, e = code // 10, code % 10
+        return self._path(s, e, self.CHAIN, 'nope')
+
+    def ghost(self, shape):
+        """the uninstalled search path of that shape ([] when the universe has none)"""
+        s, e = shape
+        if s == 0:
+            return []
+        return [self._path(s, e, (self.pkg, self.CHAIN[0]), f'{self.prefix}_ghostsp' if e == 0 else 'ghostsp')]
 
 
 class Hierarchy:
     """Real provider classes for one universe, created under a fresh abstract root (fresh name -> fresh BANK entries)."""
 
-    def __init__(self, sid, cls):
+    NSPKG = 'c20ns'  # the installed tree of direct hierarchies (created once per run in the sandbox, see direct_namespace)
+
+    def __init__(self, sid, cls, ghost=(0, 0)):
         from forml import provider as provmod
         self.provmod = provmod
         self.sid = sid
         self.cls = cls
+        self.ns = Namespace(self.NSPKG, 'c20ns')
         self.obj = {0: provmod.Meta(f'S{sid}Root', (provmod.Service,),
-                                    {'__module__': MOD, '__qualname__': f'S{sid}Root', 'm0': abc.abstractmethod(_fresh())})}
+                                    {'__module__': MOD, '__qualname__': f'S{sid}Root', 'm0': abc.abstractmethod(_fresh())},
+                                    path=[self.NSPKG, *self.ns.ghost(ghost)])}
 
     def register(self, c):
         import forml
@@ -555,6 +649,10 @@ class Hierarchy:
         return 'ok'
 
     def ref(self, t, n):
+        if t == 3:
+            return self.ns.qualified(n, lambda k: f'S{self.sid}C{k}')
+        if t == 4:
+            return self.ns.alias(n)
         return f'al{n}' if t == 1 else f'{MOD}:S{self.sid}C{n}'
 
     def get(self, via, t, n, pad=None):
@@ -581,10 +679,19 @@ def _fresh():
     return lambda self: None
 
 
+def direct_namespace(tmp):
+    """install the module tree of the direct hierarchies once (before any worker is forked)"""
+    base = os.path.join(tmp, 'c20-namespace')
+    if base not in sys.path:
+        os.makedirs(base, exist_ok=True)
+        Namespace.install(base, Hierarchy.NSPKG)
+        sys.path.insert(0, base)
+
+
 def replay_direct(vec, sid):
     """Replay one exported registration history; returns list of problems (dicts)."""
     cls, alias_count = vec['cls'], vec['A']
-    h = Hierarchy(sid, cls)
+    h = Hierarchy(sid, cls, vec['ghost'])
     problems = []
     accepted, rejected = [], []
     for step, ev in enumerate(vec['hist']):
@@ -600,7 +707,7 @@ def replay_direct(vec, sid):
         if not (vec['steptables'] or last):
             continue
         sparse = ev['table'] if vec['steptables'] else vec['table']
-        for row in full_table(sparse, [0] + accepted, alias_count, len(cls)):
+        for row in full_table(sparse, [0] + accepted, alias_count, len(cls), vec.get('urefs', ()), f'{sid}/{step}'):
             got = h.get(row['via'], row['t'], row['n'])
             if got != row['must']:
                 pred = known_partial(cls, accepted, rejected, row['via'], row['t'], row['n'])
@@ -632,7 +739,7 @@ def describe(cls):
     return [{'id': i + 1, **d} for i, d in enumerate(cls)]
 
 
-def bank_direct_part(chk, tmp):
+def bank_direct_part(chk, rnd, tmp):
     # ---- model: requirement machine + as-is banks in lock step, every registration order
     sizes = [(3, 2)] if chk.quick else [(3, 2), (4, 2)]
     for n, a in sizes:
@@ -649,19 +756,20 @@ def bank_direct_part(chk, tmp):
     for n, a, steptables in ([(3, 2, True)] if chk.quick else [(3, 2, True), (4, 2, False)]):
         res = chk.tlc('Bank', bank_cfg(os.path.join(tmp, f'bx{n}.cfg'), n, a, 1, False, 0, True, invariants=False,
                                        steptables=steptables), require=['Register'], workers=4 if chk.quick else 8)
-        got = res.json_prints()
+        got, urefs = take_urefs(res.json_prints(), rnd)
         for vec in got:
             vec['A'], vec['steptables'] = a, steptables
         vectors += got
         del res
     if not vectors:
         raise tlc.MachineryError('Bank.tla exported no behaviour')
+    direct_namespace(tmp)
     results = fan_out(direct_worker, 'd', vectors, 1 if chk.quick else 4)
     lookups = 0
     for k, (vec, problems) in enumerate(zip(vectors, results)):
-        lookups += len(full_table([], range(len(vec['acc']) + 1), vec['A'], len(vec['cls']))) * (len(vec['hist']) if vec['steptables'] else 1)
+        lookups += len(full_table([], range(len(vec['acc']) + 1), vec['A'], len(vec['cls']), vec['urefs'])) * (len(vec['hist']) if vec['steptables'] else 1)
         order = [ev['a'] for ev in vec['hist']]
-        replay = {'kind': 'direct', 'cls': vec['cls'], 'order': order}
+        replay = {'kind': 'direct', 'cls': vec['cls'], 'order': order, 'ghost': vec['ghost']}
         if not problems:
             chk.validated()
             if k % 1499 == 0:
@@ -674,7 +782,9 @@ def bank_direct_part(chk, tmp):
     vec = json.loads(json.dumps(next(v for v in vectors if v['steptables'] and any(r['must'] for r in v['hist'][-1]['table']))))
     next(r for r in vec['hist'][-1]['table'] if r['must'])['must'] = 99  # a class that does not exist
     chk.selftest('bank_direct_corrupted_expectation_noticed', bool(replay_direct(vec, 'selftest')))
-    chk.extra['bank_direct'] = {'behaviours_replayed': len(vectors), 'lookups_compared': lookups}
+    chk.extra['bank_direct'] = {'behaviours_replayed': len(vectors), 'lookups_compared': lookups,
+                                'replayed_with_uninstalled_search_path': sum(tuple(v['ghost']) != GHOSTS[0] for v in vectors),
+                                'unknown_reference_shapes': len(urefs), 'shapes_probed_per_interface_and_table': PROBES['direct'] or len(urefs)}
 
 
 # ---------------------------------------------------------------------------------------------------------------------
@@ -687,14 +797,16 @@ class Materialised:
         self.cls, self.names = vec['cls'], vec['name']
         self.p = f'c20s{sid}'
         self.dir = base
+        self.ns = Namespace(f'{self.p}_pkg', self.p)
         self.modname = {m: (f'{self.p}_pkg.al{k}' if k else f'{self.p}_ext{m}') for m, k in enumerate(self.names, start=1)}
         self.files = []
         pkg = os.path.join(base, f'{self.p}_pkg')
         os.mkdir(pkg)
         self._write(os.path.join(pkg, '__init__.py'), '')
+        Namespace.install(base, f'{self.p}_pkg')  # (removed with the package in close())
         self._write(os.path.join(base, f'{self.p}_root.py'),
                     'import abc\nfrom forml import provider as provmod\n\n\n'
-                    f'class Root(provmod.Service, path=[{self.p + "_pkg"!r}]):\n'
+                    f'class Root(provmod.Service, path={[self.p + "_pkg", *self.ns.ghost(vec.get("ghost", (0, 0)))]!r}):\n'
                     '    @abc.abstractmethod\n    def m0(self):\n        """abstract"""\n')
         for m, name in self.modname.items():
             mine = [c for c in range(1, len(self.cls) + 1) if self.cls[c - 1]['mod'] == m]
@@ -730,6 +842,10 @@ class Materialised:
         return getattr(sys.modules[self.modname[self.cls[v - 1]['mod']]], f'C{v}')
 
     def ref(self, t, n):
+        if t == 3:
+            return self.ns.qualified(n, lambda k: f'C{k}')
+        if t == 4:
+            return self.ns.alias(n)
         if t == 1:
             return f'al{n}'
         if n > len(self.cls):
@@ -771,7 +887,7 @@ def replay_modules(vec, sid, base):
                     problems.append({'what': f'interface {ev["a"]}[{mat.ref(ev["t"], ev["n"])}] answered {got or "missing"}, '
                                              f'allowed {allowed} (0 = missing)', 'step': step})
                     return problems
-        for row in full_table(vec['table'], [0] + list(vec['acc']), vec['A'], len(vec['cls'])):
+        for row in full_table(vec['table'], [0] + list(vec['acc']), vec['A'], len(vec['cls']), vec.get('urefs', ()), str(sid), 'modules'):
             got = mat.get(row['via'], row['t'], row['n'])
             allowed = [row['must']] if row['must'] else [0, row['may']]
             if got not in allowed:
@@ -831,7 +947,7 @@ def bank_modules_part(chk, rnd, tmp):
                 require=['IImport', 'ILookup'], workers=8)
     res = chk.tlc('Bank', bank_cfg(os.path.join(tmp, 'bmx.cfg'), n, a, m, True, gets, True, invariants=False),
                   require=['Import', 'Lookup'], workers=4 if chk.quick else 8)
-    vectors = res.json_prints()
+    vectors, urefs = take_urefs(res.json_prints(), rnd)
     del res
     if not vectors:
         raise tlc.MachineryError('Bank.tla (modules) exported no behaviour')
@@ -852,8 +968,8 @@ def bank_modules_part(chk, rnd, tmp):
                 chk.sample({'hierarchy': describe(vec['cls']), 'module_names': vec['name'], 'events': events})
         for p in problems:
             chk.fail(f'{p["what"]} in hierarchy {describe(vec["cls"])} modules {vec["name"]}',
-                     {'kind': 'modules', 'cls': vec['cls'], 'name': vec['name'], 'acc': vec['acc'], 'A': vec['A'],
-                      'hist': vec['hist'], 'table': vec['table']})
+                     {'kind': 'modules', 'cls': vec['cls'], 'name': vec['name'], 'ghost': vec['ghost'], 'acc': vec['acc'],
+                      'A': vec['A'], 'hist': vec['hist'], 'table': vec['table'], 'urefs': vec['urefs']})
     # binding self-test
     sys.path.insert(0, base)
     vec = json.loads(json.dumps(next(v for v in vectors if any(r['must'] for r in v['table']))))
@@ -861,7 +977,10 @@ def bank_modules_part(chk, rnd, tmp):
     chk.selftest('bank_modules_corrupted_expectation_noticed', bool(replay_modules(vec, 'selftest', base)))
     sys.path.remove(base)
     shutil.rmtree(base, ignore_errors=True)
-    chk.extra['bank_modules'] = {'behaviours_exported': total, 'behaviours_replayed': len(vectors)}
+    chk.extra['bank_modules'] = {'behaviours_exported': total, 'behaviours_replayed': len(vectors),
+                                 'replayed_with_uninstalled_search_path': sum(tuple(v['ghost']) != GHOSTS[0] for v in vectors),
+                                 'unknown_reference_shapes': len(urefs),
+                                 'shapes_probed_per_interface_and_table': PROBES['modules'] or len(urefs)}
 
 
 def _subdir(base, i):
@@ -890,11 +1009,14 @@ def bank_trace_part(chk, rnd):
     # goes (section -> forml.runtime._pad.ensure_instance -> instance of the class found in the bank)
     setup.CONFIG.update({'C20PAD': {f'al{k}': {'provider': f'al{k}'} for k in range(1, 7)}})
     pad_section = type(setup.Provider)('Pad', (setup.Provider,), {'INDEX': 'C20PAD', 'GROUP': 'C20PAD'})
-    padded = 0
+    padded = shaped = 0
+    direct_namespace(os.getcwd())
     for k in range(count):
         n, a = rnd.randint(3, 8), rnd.randint(1, 4)
         cls = random_universe(rnd, n, a)
-        h = Hierarchy(f't{k}', cls)
+        # half of the root interfaces are configured with a search path that is not installed (Bank!GhostsAll)
+        ghost = rnd.choice(GHOSTS[1:]) if rnd.random() < 0.5 else GHOSTS[0]
+        h = Hierarchy(f't{k}', cls, ghost)
         events, accepted, rejected, pending = [], [], [], set(range(1, n + 1))
         known_at = None
         while pending:
@@ -917,6 +1039,12 @@ def bank_trace_part(chk, rnd):
                         via = rnd.choice(chain(cls, target)[1:])
                         if via and via not in accepted:
                             via = 0
+                if rnd.random() < 0.25:  # a reference nobody provides, any shape of Bank!URefsOf (any class name)
+                    t = rnd.choice((3, 4))
+                    s = rnd.randint(1, 3 if t == 3 else 2)
+                    e = rnd.randint(0, s)
+                    num = 100 * s + 10 * e + rnd.randint(0, n) if t == 3 else 10 * s + e
+                    shaped += 1
                 pad = pad_section.resolve(f'al{num}') if t == 1 and rnd.random() < 0.3 else None
                 padded += pad is not None
                 got = h.get(via, t, num, pad=pad)
@@ -924,7 +1052,7 @@ def bank_trace_part(chk, rnd):
                     known_at = len(events)
                 events.append({'op': 'get', 'c': 0, 'out': '', 'via': via, 't': t, 'n': num,
                                'res': got if isinstance(got, int) else -1})
-        traces.append({'cls': cls, 'events': events})
+        traces.append({'cls': cls, 'ghost': list(ghost), 'events': events})
         meta.append({'known_at': known_at})
     # binding self-test: a trace whose last answered lookup is replaced by another answer
     src = next(t for t in traces if any(e['op'] == 'get' for e in t['events']))
@@ -933,6 +1061,14 @@ def bank_trace_part(chk, rnd):
     bad['events'] = bad['events'][:last + 1]
     bad['events'][last]['res'] = 99  # a class that does not exist
     traces.append(bad)
+    # ... and synthetic ones: an unknown-shaped reference answered by the missing-provider error (control), by another
+    # exception, by some class
+    shape_cls = [{'par': 0, 'abs': False, 'al': 1, 'mod': 1}]
+    shape_ev = lambda t, num, res: [{'op': 'reg', 'c': 1, 'out': 'ok', 'via': 0, 't': 0, 'n': 0, 'res': 0},  # noqa: E731
+                                    {'op': 'get', 'c': 0, 'out': '', 'via': 0, 't': t, 'n': num, 'res': res}]
+    synthetic = [(3, 311, 0), (3, 311, -1), (3, 311, 1), (4, 20, 0), (4, 20, -1), (4, 20, 1)]
+    for t, num, res in synthetic:
+        traces.append({'cls': shape_cls, 'ghost': [2, 0], 'events': shape_ev(t, num, res)})
     verdicts = {}
     size = 2000
     for lo in range(0, len(traces), size):
@@ -943,7 +1079,14 @@ def bank_trace_part(chk, rnd):
             raise tlc.MachineryError(f'TraceBank: expected {len(traces[lo:lo + size])} verdicts, got {len(got)}')
         for v in got:
             verdicts[lo + v[0] - 1] = v
-    chk.selftest('bank_trace_wrong_answer_rejected', verdicts[len(traces) - 1][1] < verdicts[len(traces) - 1][2])
+    first = len(traces) - len(synthetic)
+    chk.selftest('bank_trace_wrong_answer_rejected', verdicts[first - 1][1] < verdicts[first - 1][2])
+    for i, (t, num, res) in enumerate(synthetic, start=first):
+        if res == 0 and verdicts[i][1] != verdicts[i][2]:
+            raise tlc.MachineryError('TraceBank rejected a correct control observation (unknown-shaped reference)')
+        if res != 0:
+            chk.selftest(f'bank_trace_unknown_shape_kind{t}_answered_{"error" if res < 0 else "class"}_rejected',
+                         verdicts[i][1] < verdicts[i][2])
     events = 0
     for k, m in enumerate(meta):
         _, matched, length = verdicts[k]
@@ -957,11 +1100,12 @@ def bank_trace_part(chk, rnd):
             continue
         ev = tr['events'][matched]
         what = (f'class statement of class {ev["c"]} gave {ev["out"]}' if ev['op'] == 'reg' else
-                f'interface {ev["via"]}[{"alias" if ev["t"] == 1 else "qualified name of class"} {ev["n"]}] answered '
-                f'{ev["res"] or "missing"}') + f' at event {matched} of hierarchy {describe(tr["cls"])}, events {tr["events"][:matched]}'
-        chk.fail(what, {'kind': 'trace', 'cls': tr['cls'], 'events': tr['events'][:matched + 1]},
+                f'interface {ev["via"]}[{KINDS[ev["t"]]} {ev["n"]}] answered '
+                f'{"another exception than the missing-provider error" if ev["res"] < 0 else ev["res"] or "missing"}') + f' at event {matched} of hierarchy {describe(tr["cls"])}, events {tr["events"][:matched]}'
+        chk.fail(what, {'kind': 'trace', 'cls': tr['cls'], 'ghost': tr['ghost'], 'events': tr['events'][:matched + 1]},
                  finding=FINDING if m['known_at'] == matched else None)
-    chk.extra['bank_traces'] = {'traces': count, 'events_validated': events, 'lookups_via_runtime_pad': padded}
+    chk.extra['bank_traces'] = {'traces': count, 'events_validated': events, 'lookups_via_runtime_pad': padded,
+                                'lookups_of_unknown_shaped_references': shaped}
 
 
 # ---------------------------------------------------------------------------------------------------------------------
@@ -970,9 +1114,11 @@ def main(chk):
     logging.disable(logging.INFO)
     rnd = random.Random(chk.seed)
     tmp = os.getcwd()
+    # (a seeded sample of Bank!URefs per interface and table - 10^4..10^5 tables per run - twice as many in thorough)
+    PROBES.update(direct=3 if chk.quick else 6, modules=5 if chk.quick else 10, seed=chk.seed)
     import time
     phases = {}
-    for name, part in (('config', lambda: config_part(chk, rnd, tmp)), ('bank_direct', lambda: bank_direct_part(chk, tmp)),
+    for name, part in (('config', lambda: config_part(chk, rnd, tmp)), ('bank_direct', lambda: bank_direct_part(chk, rnd, tmp)),
                        ('bank_modules', lambda: bank_modules_part(chk, rnd, tmp)), ('bank_traces', lambda: bank_trace_part(chk, rnd))):
         t0 = time.time()
         part()
@@ -1002,12 +1148,16 @@ def replay(chk, path):
         print('verdict:', v)
         return 0 if v[1] == v[2] else 1
     if rep['kind'] == 'direct':
-        h = Hierarchy('replay', rep['cls'])
+        direct_namespace(os.getcwd())
+        h = Hierarchy('replay', rep['cls'], rep.get('ghost', (0, 0)))
         for c in rep['order']:
             print('register', c, rep['cls'][c - 1], '->', h.register(c))
         n = len(rep['cls'])
+        shaped = ([(3, 100 * s + 10 * e + k) for s in (1, 2, 3) for e in range(s + 1) for k in (0, 1)]
+                  + [(4, 10 * s + e) for s in (1, 2) for e in range(s + 1)])  # Bank!URefs
         for via in [0] + [c for c in rep['order'] if c in h.obj]:
             print('via', via, {h.ref(t, k): h.get(via, t, k) for t, k in [(1, 1), (1, 2), (1, 3)] + [(2, k) for k in range(1, n + 1)]})
+            print('   unknown-shaped references not answered "missing":', {h.ref(t, k): h.get(via, t, k) for t, k in shaped if h.get(via, t, k) != 0})
         return 1
     if rep['kind'] == 'modules':
         base = tempfile.mkdtemp(prefix='mods-', dir=os.getcwd())
